@@ -45,6 +45,8 @@ const REQ_BUFS: &[&[u8]] = &[
     b"GET /g HTTP/1.1\r\nA: 1\r\nB C: 2\r\n\r\n",
     b"GET /h HTTP/1.1\r\nA: 1\r\nB: 2\r\nC: \x01\r\n\r\n",
     b"GET  /m  HTTP/1.1\r\n X: y\r\nbad\r\nZ: w\r\n\r\n",
+    // strict: stores A then fails on the next line; lenient: drops that line
+    b"GET /n HTTP/1.1\r\nA: 1\r\n there\r\nB: 2\r\n\r\n",
 ];
 
 const RESP_BUFS: &[&[u8]] = &[
@@ -65,6 +67,9 @@ const RESP_BUFS: &[&[u8]] = &[
     b"HTTP/1.1 200 OK\r\nA: 1\r\nB C: 2\r\n\r\n",
     b"HTTP/1.1 200 OK\r\nA: 1\r\nB: 2\r\nC: \x01\r\n\r\n",
     b"HTTP/1.1  200  OK\r\n X : y\r\n z\r\nbad\r\nZ: w\r\n\r\n",
+    // strict: stores "Folded: hello" then fails on the continuation; lenient: one folded header
+    b"HTTP/1.1 200 OK\r\nFolded: hello\r\n there\r\nB: 1\r\n\r\n",
+    b"HTTP/1.1 200\r\nA: 1\r\n\r\n",
 ];
 
 fn lenient() -> ParserConfig {
@@ -268,6 +273,43 @@ fn storage_violation(m: &Reuse, s: &HState) -> Option<String> {
     None
 }
 
+/// C16 on re-used values: the initialised-array and the uninit entry point of the same
+/// configuration return the same status and leave the same fields behind, whatever earlier calls
+/// did to the value.
+fn entry_disagreement(m: &Reuse, s: &HState) -> Option<(Op, Op, String, String)> {
+    let nbuf = match m.kind {
+        Kind::Request => REQ_BUFS.len(),
+        Kind::Response => RESP_BUFS.len(),
+    };
+    let have3 = m.ops.iter().any(|o| o.entry == 3);
+    // "same buffer, configuration and capacity": the initialised-array entry points work on the
+    // current `headers` slice, the uninit ones on the array passed to them (m.cap slots) — after a
+    // Complete call has shrunk the slice the two capacities differ and the calls are not comparable
+    if s.snap.hlen != m.cap {
+        return None;
+    }
+    for b in 0..nbuf as u8 {
+        for (ea, eb) in [(0u8, 2u8), (1, 3)] {
+            if eb == 3 && !have3 {
+                continue;
+            }
+            let run = |e: u8| {
+                let mut ops = s.ops.clone();
+                ops.push(Op { buf: b, entry: e });
+                let (mut r, mut sn, _) = replay(m.kind, m.cap, m.cap, &ops);
+                let sn = sn.pop().unwrap();
+                (r.pop().unwrap(), sn.f1, sn.f2, sn.version, sn.code)
+            };
+            let (ra, rb) = (run(ea), run(eb));
+            PROBES.fetch_add(2, std::sync::atomic::Ordering::Relaxed);
+            if ra != rb {
+                return Some((Op { buf: b, entry: ea }, Op { buf: b, entry: eb }, format!("{:?}", ra), format!("{:?}", rb)));
+            }
+        }
+    }
+    None
+}
+
 impl Model for Reuse {
     type State = HState;
     type Action = Op;
@@ -296,6 +338,7 @@ impl Model for Reuse {
         vec![
             Property::always("C18 probe on reused value equals probe on fresh value", |m: &Reuse, s: &HState| failing_probe(m, s).is_none()),
             Property::always("C17 headers slice restored / untouched / exact along histories", |m: &Reuse, s: &HState| storage_violation(m, s).is_none()),
+            Property::always("C16 initialised-array and uninit entry points agree on a re-used value", |m: &Reuse, s: &HState| entry_disagreement(m, s).is_none()),
         ]
     }
 }
@@ -371,7 +414,12 @@ fn run_reuse(quick: bool, replay_dir: &str, prop: &str, sum: &mut Summary) {
                 for (name, path) in checker.discoveries() {
                     let last = path.last_state().clone();
                     let m = checker.model();
-                    let (what, probe, a, b) = if name.starts_with("C18") {
+                    let (what, probe, a, b) = if name.starts_with("C16") {
+                        match entry_disagreement(m, &last) {
+                            Some((pa, pb, ra, rb)) => (format!("entry {} and entry {} disagree on the same buffer after this history", pa.entry, pb.entry), Some(pa), ra, rb),
+                            None => ("(not reproducible)".into(), None, String::new(), String::new()),
+                        }
+                    } else if name.starts_with("C18") {
                         match failing_probe(m, &last) {
                             Some((p, r, f, w)) => (format!("probe differs from the probe on a {}", w), Some(p), format!("{:?}", r), format!("{:?}", f)),
                             None => ("(not reproducible)".into(), None, String::new(), String::new()),
@@ -379,7 +427,7 @@ fn run_reuse(quick: bool, replay_dir: &str, prop: &str, sum: &mut Summary) {
                     } else {
                         (storage_violation(m, &last).unwrap_or_default(), None, String::new(), String::new())
                     };
-                    let p = if name.starts_with("C18") { "C18" } else { "C17" };
+                    let p = if name.starts_with("C18") { "C18" } else if name.starts_with("C16") { "C16" } else { "C17" };
                     let file = format!("{}/{}-history-{:?}-cap{}-{}.json", replay_dir, p, kind, cap, last.ops.len());
                     let body = format!(
                         "{{\"property\":\"{}\",\"kind\":\"history\",\"model\":\"reuse\",\"message_kind\":\"{:?}\",\"capacity\":{},\"ops\":{},\"probe\":{},\"what\":\"{}\",\"reused\":\"{}\",\"fresh\":\"{}\"}}",
@@ -667,6 +715,12 @@ fn replay_file(path: &str) -> i32 {
     }
     if let Some(w) = storage_violation(&m, &s) {
         println!("  VIOLATED: C17 {}", w);
+        rc = 1;
+    }
+    if let Some((pa, pb, ra, rb)) = entry_disagreement(&m, &s) {
+        println!("  probe buffer {:?}: entry {} gives {}", printable(bufs[pa.buf as usize]), pa.entry, ra);
+        println!("                      entry {} gives {}", pb.entry, rb);
+        println!("  VIOLATED: C16");
         rc = 1;
     }
     rc
